@@ -53,9 +53,8 @@ func vpKeepContent(algo int, typ, k string) bool {
 		if k == "membership" {
 			return true
 		}
-		if algo >= 5 && k == "third_party_invite" {
-			return true // v11: the key survives (restricted to its "signed" member)
-		}
+		// v11: third_party_invite survives restricted to its "signed" member (handled by the caller, which knows
+		// whether the value is an object with that member)
 		return algo >= 4 && k == "join_authorised_via_users_server"
 	case spec.MRoomCreate:
 		if algo >= 5 {
@@ -120,7 +119,9 @@ func vp_C05_redact() {
 	ck := vpNondetStringN("ck", klen)
 	// the value under the extra content key ranges over every JSON kind
 	var cval interface{}
-	switch vpChoice("cval_kind", "string", "null", "int", "bool", "object", "array") {
+	signedDoc := vpJObj("mxid", "@a:b", "token", "t")
+	cvalKind := vpChoice("cval_kind", "string", "null", "int", "bool", "object", "object-signed", "object-only-signed", "array")
+	switch cvalKind {
 	case "string":
 		cval = vpNondetStringN("cval", 2)
 	case "null":
@@ -131,6 +132,10 @@ func vp_C05_redact() {
 		cval = vpNondetBool("cval_bool")
 	case "object":
 		cval = vpJObj("x", "y")
+	case "object-signed":
+		cval = vpJObj("display_name", "d", "signed", signedDoc)
+	case "object-only-signed":
+		cval = vpJObj("signed", signedDoc)
 	default:
 		cval = vpJArr("x", int64(1))
 	}
@@ -197,12 +202,20 @@ func vp_C05_redact() {
 		_, bodyPresent := oc["body"]
 		vpAssert("content-body", bodyPresent == vpKeepContent(algo, typ, "body"))
 		cv, ckPresent := oc[ck]
-		// KF-C05-2: v11+ must keep third_party_invite.signed of m.room.member events; the library drops the whole key
-		kf2 := algo >= 5 && typ == spec.MRoomMember && ck == "third_party_invite"
-		vpAssertKF("content-extra-key", ckPresent == vpKeepContent(algo, typ, ck), "KF-C05-2", kf2)
-		if ckPresent {
-			vpAssert("content-extra-value", bytes.Equal(cv, cvalDoc))
+		// v11+ keeps third_party_invite of m.room.member events restricted to its "signed" member
+		// (fixed: KF-C05-2 - the library used to drop the whole key)
+		tpi := algo >= 5 && typ == spec.MRoomMember && ck == "third_party_invite"
+		wantPresent := vpKeepContent(algo, typ, ck)
+		wantVal := cvalDoc
+		if tpi {
+			wantPresent = cvalKind == "object-signed" || cvalKind == "object-only-signed"
+			wantVal = vpJVal(vpJObj("signed", signedDoc))
 		}
+		vpAssert("content-extra-key", ckPresent == wantPresent)
+		if ckPresent {
+			vpAssert("content-extra-value", bytes.Equal(cv, wantVal))
+		}
+		vpReach("third-party-invite-signed-kept", tpi && ckPresent)
 	}
 	// idempotence
 	red2, err2 := verImpl.RedactEventJSON(red)
